@@ -361,13 +361,13 @@ def configs(tier, rng):
                     for lf in lfs[:3]:
                         out.append((list(stream), list(lf), mj))
     else:
-        for n in range(0, 6):
+        for n in range(0, 5):
             streams = list(itertools.product((True, False), repeat=n))
             for stream in streams:
                 for mj in (1, 2, 3):
                     lfs = list(itertools.product((0, 1, 2, 3), repeat=n))
                     rng.shuffle(lfs)
-                    for lf in lfs[:4 if n > 3 else 12]:
+                    for lf in lfs[:3 if n > 3 else 8]:
                         out.append((list(stream), list(lf), mj))
     return out
 
@@ -406,7 +406,7 @@ def run(ctx):
     cases, exps, meta = [], [], []
     seen_model = set()
     nrun = 0
-    budget_lines = 40 if quick else 400
+    budget_lines = 40 if quick else 150
     for (stream, lifes, mj) in configs(ctx.tier, rng):
         for cont in (False, True):
             dry = scenario(stream, lifes, mj, cont)
